@@ -802,6 +802,8 @@ def finish(prop, mod, tier, seed, units, results, wall):
             inconclusive=inconclusive[:20], stretch_inconclusive=stretch_inconclusive[:20],
             known_findings=[k['text'] for k, _, _ in known_hits],
             float_probes_replayed_without_failure=probes_clean[:20],
+            paths_with_zero_divisor_preconditions_dropped=sum(r.get('paths_with_zero_divisor_preconditions_dropped', 0)
+                                                              for r in results),
             evaluations=max(1, tot('obligations')),
             distinct_nontrivial=tot('distinct'),
             rule='one evaluation = one obligation (pre ∧ path ∧ ¬claim) decided by z3; distinct_nontrivial counts '
